@@ -15,6 +15,7 @@ Property theorems only (helpers: `Gotlcp.Lemmas.Parsers`, `Gotlcp.Lemmas.Parsers
 -/
 import Gotlcp.Lemmas.Parsers
 import Gotlcp.Lemmas.ParsersLoop
+import Gotlcp.Lemmas.ParsersLoopD
 import Gotlcp.Model.ParsersFacts
 
 namespace Gotlcp.Props.C09
@@ -279,5 +280,123 @@ example : (dispatch limitsT { sDone with complete := false } false 22 [1, 2, 3, 
 example : ∃ lib : Lib, ∀ m, lib.seg m ≤ 512 := ⟨{ seg := fun _ => 512, dec := fun _ _ => none, unmarshalOk := fun _ => true }, fun _ => Nat.le_refl _⟩
 
 end Stream
+
+/-! ### (b) no spin and (c) bounded memory — datagram stack -/
+
+section Datagram
+open Gotlcp.Model.ParsersLoopD Gotlcp.Lemmas.ParsersLoopD
+
+/-- the loop constants and guards the theorems below rely on, as extracted from dtlcp -/
+theorem C09_facts_dtlcp :
+    13 ≤ limitsD.hdr ∧ 12 ≤ limitsD.hsHdr ∧ 1 ≤ limitsD.maxHandshake ∧
+    Facts.dtlcp.recRetryGuard = true ∧ Facts.dtlcp.fragReadsGuard = true ∧
+    Facts.dtlcp.hsFrameGuards = ["if fragmentReads > maxHandshakeFragments", "for c.handBuf.Len() < dtlcpHeaderLen",
+      "if bodyLen > maxHandshake", "if fragOff+fragLen > bodyLen", "for c.handBuf.Len() < dtlcpHeaderLen+fragLen",
+      "next c.handBuf.Next(dtlcpHeaderLen + fragLen)"] ∧
+    -- F42: handshake records are dropped once the handshake is complete
+    limitsD.refusePostHs = true ∧
+    -- F43b: readRecordOrCCS returns once it has delivered something instead of reading on
+    limitsD.deliveredGuard = true := by
+  decide
+
+/-- NO SPIN, datagram stack.  For every connection state, every list of datagrams still to
+come and every answer of the cipher (not expanding), of the replay window, of the clocks and of
+cookie verification:
+* an iteration of the loop of `readRecordOrCCS` that continues (`continue`, or a retry after a
+  warning alert) has consumed input — at least a record header of the current datagram, or a
+  whole datagram;
+* `readRecordOrCCS`+`retryReadRecord`, the loops of `readHandshake`, `readHandshake` and the
+  HelloVerifyRequest loop with `readNextClientHello` never reach the `stuck` exit of their
+  well-founded definitions and never panic; each of them only moves forward through the input;
+* `readHandshake` gives up, without reading, once `fragmentReads` has reached
+  `maxHandshakeFragments`. -/
+theorem C09_progress_dtlcp (lib : LibD) (hdec : DecLen lib) (s : StD) (e dlv : Bool) (need reads0 k : Nat) :
+    ((((∃ e' d', (iter limitsD lib s e dlv).2 = .again e' d') ∨ (iter limitsD lib s e dlv).2 = .retry) →
+        (iter limitsD lib s e dlv).1.mu < s.mu)) ∧
+    ((readRecord limitsD lib s e).2 = .ok () → (readRecord limitsD lib s e).1.mu < s.mu) ∧
+    (readRecord limitsD lib s e).2 ≠ .err .stuck ∧ (readRecord limitsD lib s e).2 ≠ .panic ∧
+    (readUntil limitsD lib s need).2 ≠ .err .stuck ∧ (readUntil limitsD lib s need).2 ≠ .panic ∧
+    (readHandshake limitsD lib s).2 ≠ .err .stuck ∧ (readHandshake limitsD lib s).2 ≠ .panic ∧
+    (readHandshake limitsD lib s).1.mu ≤ s.mu ∧
+    (cookieLoop limitsD lib s k).2 ≠ .err .stuck ∧ (cookieLoop limitsD lib s k).2 ≠ .panic ∧
+    (cookieLoop limitsD lib s k).1.mu ≤ s.mu ∧
+    (Facts.dtlcp.maxHandshakeFragments ≤ reads0 → fragLoop limitsD lib s reads0 = (setErr s, .err .unexpected)) := by
+  have f := C09_facts_dtlcp
+  have h13 := f.1
+  have h12 := f.2.1
+  have is := iter_spec limitsD lib h13 hdec s e dlv
+  have rs := readRecord_spec limitsD lib h13 hdec s e
+  have us := readUntil_spec limitsD lib need h13 hdec s
+  have hs := readHandshake_spec limitsD lib h13 h12 hdec s
+  have cs := cookieLoop_spec limitsD lib h13 h12 hdec s k
+  refine ⟨is.progress, ?_, rs.no_stuck, rs.no_panic, us.no_stuck, us.no_panic, hs.no_stuck, hs.no_panic, hs.mu_le,
+    cs.2.1, cs.1, cs.2.2, ?_⟩
+  · intro h
+    rcases rs.ok_progress h with h | h
+    · exact h
+    · cases h
+  · intro h
+    unfold fragLoop
+    have : reads0 + 1 > limitsD.maxFragments := by
+      show reads0 + 1 > Facts.dtlcp.maxHandshakeFragments; omega
+    simp only [this, ↓reduceIte]
+
+/-- BOUNDED MEMORY, datagram stack.  For every list of datagrams the peer may send, every
+(non-expanding) cipher answer and every sequence of receive operations of the handshake and
+of the application (`readHandshake`, completion, the `readRecord` of `Read`):
+* at most `maxHandshakeFragments` reassembly buffers exist per `readHandshake` call made so
+  far (they are all released when the handshake completes), each for a message of at most
+  `maxHandshake` bytes — message bytes plus one bit per byte;
+* the handshake buffer holds at most one maximum-size message with its header plus one datagram;
+* the datagram buffer holds at most one maximum-size record with its header. -/
+theorem C09_mem_dtlcp (lib : LibD) (hdec : DecLen lib) (dgrams : List Bytes) (ops : List OpD) :
+    let s := runD limitsD lib (StD.init dgrams) ops
+    s.pending.length ≤ Facts.dtlcp.maxHandshakeFragments * hsCount ops ∧
+    (∀ b ∈ s.pending, b.n ≤ Facts.dtlcp.maxHandshake ∧ b.bytes ≤ Facts.dtlcp.maxHandshake + (Facts.dtlcp.maxHandshake + 7) / 8) ∧
+    s.hand.length ≤ Facts.dtlcp.dtlcpHeaderLen + Facts.dtlcp.maxHandshake + Facts.dtlcp.maxCiphertext + Facts.dtlcp.recordHeaderLen ∧
+    s.raw.length ≤ Facts.dtlcp.maxCiphertext + Facts.dtlcp.recordHeaderLen := by
+  have f := C09_facts_dtlcp
+  have inv := runD_inv limitsD lib f.1 f.2.1 hdec f.2.2.2.2.2.2.1 f.2.2.2.2.2.2.2
+    (limitsD.hsHdr + limitsD.maxHandshake + (limitsD.maxCiphertext + limitsD.hdr)) limitsD.maxHandshake
+    (by omega) (Nat.le_refl _) f.2.2.1 ops (StD.init dgrams) 0
+    ⟨by simp [StD.init], by simp [StD.init], by simp [StD.init], by intro b hb; simp [StD.init] at hb⟩
+  obtain ⟨ir, ih, ip, io⟩ := inv
+  simp only [Nat.zero_add] at ip
+  refine ⟨ip, ?_, ?_, ir⟩
+  · intro b hb
+    have hn : b.n ≤ Facts.dtlcp.maxHandshake := io b hb
+    refine ⟨hn, ?_⟩
+    unfold PBuf.bytes
+    have : (b.n + 7) / 8 ≤ (Facts.dtlcp.maxHandshake + 7) / 8 := Nat.div_le_div_right (by omega)
+    omega
+  · have e1 : limitsD.hsHdr = Facts.dtlcp.dtlcpHeaderLen := rfl
+    have e2 : limitsD.maxHandshake = Facts.dtlcp.maxHandshake := rfl
+    have e3 : limitsD.maxCiphertext = Facts.dtlcp.maxCiphertext := rfl
+    have e4 : limitsD.hdr = Facts.dtlcp.recordHeaderLen := rfl
+    omega
+
+/-- the size of that bound with the constants of this tree, in bytes per `readHandshake` call:
+256 buffers of 65536 + 8192 bytes -/
+theorem C09_mem_dtlcp_size :
+    Facts.dtlcp.maxHandshakeFragments * (Facts.dtlcp.maxHandshake + (Facts.dtlcp.maxHandshake + 7) / 8) = 18874368 := by
+  decide
+
+/-- the defect on the unchanged tree, at the level of the model: without the `delivered` guard
+the iteration that follows a buffered handshake record reads the NEXT datagram when fewer than a
+record header of bytes are left, so one `readRecord` call spans datagrams -/
+def limitsDUnrepaired : LimitsD := { limitsD with deliveredGuard := false }
+def libNone : LibD := { dec := fun _ => none, replayOk := fun _ _ => true, unmarshalOk := fun _ => true,
+                        dwell := false, stale := fun _ => false, cookieOk := fun _ => true }
+def sTrail : StD := { StD.init [[9, 9, 9, 9]] with raw := [0], hand := [1, 2, 3], haveVers := true, vers := 257 }
+example : (fetchD limitsDUnrepaired sTrail true).1.raw = [9, 9, 9, 9] ∧ (fetchD limitsDUnrepaired sTrail true).2 = none := by decide
+example : fetchD limitsD sTrail true = ({ sTrail with raw := [] }, some (.done (.ok ()))) := by decide
+-- F42 at the level of the model: post-handshake handshake records
+example : (dispatch { limitsD with refusePostHs := false } libNone { sTrail with complete := true, raw := [] } false false 22 [7, 7]).1.hand
+    = [1, 2, 3, 7, 7] := by decide
+example : (dispatch limitsD libNone { sTrail with complete := true, raw := [] } false false 22 [7, 7]).1.hand = [1, 2, 3] := by decide
+-- non-vacuity: a non-expanding cipher exists
+example : DecLen libNone := by intro r d h; cases h
+
+end Datagram
 
 end Gotlcp.Props.C09
